@@ -713,3 +713,43 @@ package rtcp
 
 //@ func (p PacketType) String() (result string)
 //@   safety[C17]
+
+// ===================================================================================================
+// receiver_estimated_maximum_bitrate.go
+// ===================================================================================================
+
+//@ func (p ReceiverEstimatedMaximumBitrate) MarshalSize() (result int)
+//@   safety[C09,C17]
+//@   ensures size: result == 20 + 4*len(p.SSRCs)
+
+//@ func (p *ReceiverEstimatedMaximumBitrate) Header() (result Header)
+//@   safety[C09,C17]
+//@   ensures hdr: result == Header{Padding: false, Count: 15, Type: TypePayloadSpecificFeedback, Length: uint16((20+4*len(p.SSRCs))/4 - 1)}
+
+//@ func (p *ReceiverEstimatedMaximumBitrate) DestinationSSRC() (result []uint32)
+//@   safety[C09,C10]
+//@   ensures[C10] same: seqEq(result, p.SSRCs)
+
+//@ func (p *ReceiverEstimatedMaximumBitrate) Unmarshal(buf []byte) (err error)
+//@   safety[C01]
+//@   modifies *p
+//@   nocap
+//@   allocates[C01] 64 + 2*len(buf)
+//@   ensures[C07] type: err == nil ==> buf[0] == 0x8f && buf[1] == 206
+//@   ensures[C04] framed: err == nil ==> len(buf) >= 20 && int(buf[16]) == len(p.SSRCs) && 4*(int(be16(buf, 2))+1) == 20 + 4*len(p.SSRCs) && len(buf) >= 20 + 4*len(p.SSRCs)
+//@   ensures[C04] fields: err == nil ==> p.SenderSSRC == be32(buf, 4) && be32(buf, 8) == 0 && buf[12] == 'R' && buf[13] == 'E' && buf[14] == 'M' && buf[15] == 'B'
+//@   ensures[C04,C14] exact: err == nil ==> p.Bitrate == specRembValue(specRembMantissa(buf), buf[17]>>2)
+//@   ensures[C04] ssrcs: forall k :: err == nil && 0 <= k && k < len(p.SSRCs) ==> p.SSRCs[k] == be32(buf, 20+4*k)
+//@   ensures[C04] accepts: len(buf) >= 20 && buf[0] == 0x8f && buf[1] == 206 && be16(buf, 2) < 16383 && 4*(int(be16(buf, 2))+1) == 20+4*int(buf[16]) && len(buf) >= 20+4*int(buf[16]) && be32(buf, 8) == 0 && buf[12] == 'R' && buf[13] == 'E' && buf[14] == 'M' && buf[15] == 'B' ==> err == nil
+//@   loop 1
+//@     invariant mantissa == specRembMantissa(buf) << uint32((buf[17]>>2)+150-exp) && mantissa >> uint32((buf[17]>>2)+150-exp) == specRembMantissa(buf) && (buf[17]>>2)+150 >= exp && (buf[17]>>2)+150-exp <= 23 && mantissa != 0 && mantissa < 1<<24 && unchanged(p.SenderSSRC)
+//@     decreases 23 - int((buf[17]>>2)+150-exp)
+//@   loop 2
+//@     invariant n == 20 + 4*len(p.SSRCs) && n <= size + 3 && (size-20)%4 == 0 && size >= 20 && unchanged(p.SenderSSRC) && unchanged(p.Bitrate)
+//@     invariant[C04] forall k :: 0 <= k && k < len(p.SSRCs) ==> p.SSRCs[k] == be32(buf, 20+4*k)
+//@     invariant[C01] allocated() <= 8 + 4*len(p.SSRCs)
+//@     decreases size - n
+
+//@ func (p *ReceiverEstimatedMaximumBitrate) String() (result string)
+//@   safety[C17]
+//@   unroll 1 9
